@@ -125,9 +125,20 @@ func acceptUnits(c *checkCtx, check string) []*interp.Unit {
 		if !c.quick() {
 			k = 5
 		}
-		u := unit(groups["parser"], "H_struct", fmt.Sprintf("H_struct[k<=%d tokens]", k), map[string]interface{}{"k": k})
+		u := unit(groups["parser"], "H_struct", fmt.Sprintf("H_struct[k<=%d tokens]", k), map[string]interface{}{"k": k, "mini": 0})
 		u.Samples = 12
 		us = append(us, u)
+		um := unit(groups["parser"], "H_struct", fmt.Sprintf("H_struct[k<=%d tokens over the 10 structural kinds]", k+1), map[string]interface{}{"k": k + 1, "mini": 1})
+		um.Samples = 12
+		us = append(us, um)
+	}
+	if c.quick() {
+		for _, sp := range []string{"[OPTIONS]", "(-e | -o)...", "[-o] [-a] X", "X..."} {
+			ps := map[string]interface{}{"spec": sp, "check": check, "shared": 0, "profile": "tmplmini", "K": 3, "Lp": 1}
+			u := unit(cli, "H_accept", fmt.Sprintf("H_accept[%q core template K<=3]", sp), ps)
+			u.Samples = 1
+			us = append(us, u)
+		}
 	}
 	// declarations sharing one non-empty default slice (values must replace it, never be written through it)
 	for _, sp := range []string{"[-o] [-e]", "[OPTIONS] X Y", "[-e] [-o] X", "(-o X)... [-e]"} {
@@ -156,6 +167,17 @@ func endUnits(c *checkCtx) []*interp.Unit {
 			ps["L"] = 3
 		}
 		u := unit(cli, "H_accept", fmt.Sprintf("H_accept[%q verbatim tail, raw K<=%v L<=%v]", sp, ps["K"], ps["L"]), ps)
+		u.Samples = 1
+		us = append(us, u)
+	}
+	// option tokens and help tokens after a command-line `--` are data (core template, 3-4 items)
+	k := 3
+	if !c.quick() {
+		k = 4
+	}
+	for _, sp := range []string{"[-a] [-b] X...", "[OPTIONS] X...", "[-a] [-b] -- X...", "[-o] X [Y]..."} {
+		ps := map[string]interface{}{"spec": sp, "check": "C09", "shared": 0, "profile": "tmplmini", "K": k, "Lp": 1}
+		u := unit(cli, "H_accept", fmt.Sprintf("H_accept[%q verbatim tail, core template K<=%d]", sp, k), ps)
 		u.Samples = 1
 		us = append(us, u)
 	}
@@ -294,7 +316,7 @@ func init() {
 		ID: "C10", Level: "model_checking",
 		Units: func(c *checkCtx) []*interp.Unit {
 			all := withOption(endFree(append(evalList(c, "vFamilyCurated"), evalList(c, "vFamilyGenerated")...)))
-			core := []string{"[-o] [-e]", "-o -e", "[-a] [-o]", "[-a] [-o] [X]", "-a... [-b]", "-a... -b", "[OPTIONS]", "[--aa] [--oo] [--ee]", "-a -o", "-a -o X", "[-ab] [-o] X"}
+			core := []string{"[-o] [-e]", "-o -e", "[-a] [-o]", "[-a] [-o] [X]", "-a... [-b]", "-a... -b", "[OPTIONS]", "[--aa] [--oo] [--ee]", "-a -o", "-a -o X", "[-ab] [-o] X", "[-ab] X [-o]", "[-o] [-a]", "-b [-a] [-o]"}
 			if c.quick() {
 				us := specUnits("H_respell", append(core, everyNth(all, 64, c.seed)...), []profile{{"n<=2 Lp<=1", map[string]interface{}{"n": 2, "Lp": 1, "flagsOnly": 0}}}, 1)
 				return append(us, specUnits("H_respell", []string{"-a... [-b]", "-a... -b", "(-a | -b)...", "[-ab]..."}, []profile{{"flags only n<=4", map[string]interface{}{"n": 4, "Lp": 1, "flagsOnly": 1}}}, 1)...)
@@ -314,7 +336,7 @@ func init() {
 		ID: "C11", Level: "model_checking",
 		Units: func(c *checkCtx) []*interp.Unit {
 			all := withOption(endFree(append(evalList(c, "vFamilyCurated"), evalList(c, "vFamilyGenerated")...)))
-			core := []string{"[-o] [-e]", "-o -e", "[-a] [-o]", "[-a] [-o] [X]", "[-b] [-o] [-e]...", "-a [-b]... [-o]", "[OPTIONS]", "[-ab]"}
+			core := []string{"[-o] [-e]", "-o -e", "[-a] [-o]", "[-a] [-o] [X]", "[-b] [-o] [-e]...", "-a [-b]... [-o]", "[OPTIONS]", "[-ab]", "[-ab] [-o]", "[-a] [-b]", "-b [-a] [-o]"}
 			envSpecs := []string{"[OPTIONS]", "[-ab]", "-a [-b]... [-o]", "[OPTIONS] X"}
 			if c.quick() {
 				us := specUnits("H_swap", append(core, everyNth(all, 32, c.seed)...), []profile{{"n<=2 Lp<=1", map[string]interface{}{"n": 2, "Lp": 1, "env": 0, "flagsOnly": 0}}}, 1)
@@ -359,19 +381,19 @@ func init() {
 	treeUnits := func(entry string, trees []int, k, l int, samples int) []*interp.Unit {
 		var us []*interp.Unit
 		for _, t := range trees {
-			u := unit(cli, entry, fmt.Sprintf("%s[tree %d, K<=%d L<=%d]", entry, t, k, l), map[string]interface{}{"tree": t, "K": k, "L": l, "env": 0})
+			u := unit(cli, entry, fmt.Sprintf("%s[tree %d, K<=%d L<=%d]", entry, t, k, l), map[string]interface{}{"tree": t, "K": k, "L": l, "env": 0, "subpol": 0})
 			u.Samples = samples
 			us = append(us, u)
 			if t == 1 || t == 2 || t == 4 {
 				// the same with every level's flag backed by an environment variable (set or unset)
-				ue := unit(cli, entry, fmt.Sprintf("%s[tree %d, K<=%d L<=%d, env-backed flags]", entry, t, k, l), map[string]interface{}{"tree": t, "K": k, "L": l, "env": 1})
+				ue := unit(cli, entry, fmt.Sprintf("%s[tree %d, K<=%d L<=%d, env-backed flags]", entry, t, k, l), map[string]interface{}{"tree": t, "K": k, "L": l, "env": 1, "subpol": 0})
 				ue.Samples = samples
 				us = append(us, ue)
 			}
 		}
 		return us
 	}
-	allTrees := []int{0, 1, 2, 3, 4, 5}
+	allTrees := []int{0, 1, 2, 3, 4, 5, 7}
 	helpTrees := []int{1, 3, 4, 5, 6}
 	precUnits := func(c *checkCtx, check string) []*interp.Unit {
 		var us []*interp.Unit
@@ -389,12 +411,17 @@ func init() {
 				role := map[int]string{1: "opt", 0: "arg"}[opt]
 				tn := []string{"bool", "string", "int", "float64", "strings", "ints", "floats64"}[t]
 				u := unit(cli, "H_prec", fmt.Sprintf("H_prec[%s %s env<=%dB x%d cli<=%dB]", tn, role, envLen, maxEnv, cliLen),
-					map[string]interface{}{"type": t, "opt": opt, "check": check, "envLen": envLen, "cliLen": cliLen, "maxEnv": maxEnv, "withArg": 0})
+					map[string]interface{}{"type": t, "opt": opt, "check": check, "envLen": envLen, "cliLen": cliLen, "maxEnv": maxEnv, "withArg": 0, "ptr": 0, "sibling": 0})
 				u.Samples = 4
 				us = append(us, u)
+				// the XxxPtr flavour of the declaration functions, and a sibling sharing the default data
+				up := unit(cli, "H_prec", fmt.Sprintf("H_prec[%s %s Ptr API, sibling with the same default, env<=1B cli<=1B]", tn, role),
+					map[string]interface{}{"type": t, "opt": opt, "check": check, "envLen": 1, "cliLen": 1, "maxEnv": 1, "withArg": 0, "ptr": 1, "sibling": 1})
+				up.Samples = 2
+				us = append(us, up)
 				if opt == 1 && (t == 2 || t == 5 || t == 0) {
 					u2 := unit(cli, "H_prec", fmt.Sprintf("H_prec[%s opt + positional, cli<=%dB]", tn, cliLen),
-						map[string]interface{}{"type": t, "opt": opt, "check": check, "envLen": 1, "cliLen": cliLen, "maxEnv": 0, "withArg": 1})
+						map[string]interface{}{"type": t, "opt": opt, "check": check, "envLen": 1, "cliLen": cliLen, "maxEnv": 0, "withArg": 1, "ptr": 0, "sibling": 0})
 					u2.Samples = 2
 					us = append(us, u2)
 				}
@@ -411,7 +438,7 @@ func init() {
 		ID: "C04", Level: "model_checking",
 		Units: func(c *checkCtx) []*interp.Unit {
 			if c.quick() {
-				return treeUnits("H_route", allTrees, 3, 2, 4)
+				return append(treeUnits("H_route", allTrees, 3, 2, 4), treeUnits("H_route", []int{0, 1, 7}, 2, 3, 4)...)
 			}
 			return append(treeUnits("H_route", allTrees, 6, 2, 4), treeUnits("H_route", allTrees, 4, 3, 4)...)
 		},
@@ -426,8 +453,13 @@ func init() {
 		ID: "C07", Level: "model_checking",
 		Units: func(c *checkCtx) []*interp.Unit {
 			conv := precUnits(c, "C07")
+			for _, t := range []int{1, 2, 4} {
+				u := unit(cli, "H_policy", fmt.Sprintf("H_policy[tree %d, K<=3 L<=2, sub-commands configured with ContinueOnError]", t), map[string]interface{}{"tree": t, "K": 3, "L": 2, "env": 0, "subpol": 1})
+				u.Samples = 3
+				conv = append(conv, u)
+			}
 			if c.quick() {
-				return append(treeUnits("H_policy", allTrees, 3, 2, 4), conv...)
+				return append(append(treeUnits("H_policy", allTrees, 3, 2, 4), treeUnits("H_policy", []int{0, 1}, 2, 3, 4)...), conv...)
 			}
 			return append(append(treeUnits("H_policy", allTrees, 5, 2, 4), treeUnits("H_policy", allTrees, 4, 3, 4)...), conv...)
 		},
@@ -474,6 +506,8 @@ func init() {
 	reg(&propDef{ID: "C15", Level: "model_checking", Units: func(c *checkCtx) []*interp.Unit {
 		us := precUnits(c, "C15")
 		// several parameters at once: the SetByUser flags with environment values set equal those without
+		us = append(us, specUnits("H_envmono", []string{"[OPTIONS] X [OPTIONS]", "[-ae] X [-ae]"},
+			[]profile{{"core template K<=3, env subsets of {VA,VE}", map[string]interface{}{"profile": "tmplmini", "K": 3, "Lp": 1, "envmask": 9}}}, 1)...)
 		return append(us, specUnits("H_envmono", []string{"[-a] (X Y | X)", "[-e] (X Y) | X", "[OPTIONS] X...", "[-a] [-o] X [Y]"},
 			[]profile{{"raw K<=2 L<=2, env subsets", map[string]interface{}{"profile": "raw", "K": 2, "L": 2, "envmask": 15}}}, 1)...)
 	}, Bounds: precBounds, Assumptions: precAssume,
@@ -512,7 +546,7 @@ func init() {
 							profs = []profile{{"tmpl K<=3 Lp<=1", map[string]interface{}{"profile": "tmpl", "K": 3, "Lp": 1}}, {"raw K<=2 L<=3", map[string]interface{}{"profile": "raw", "K": 2, "L": 3}}}
 						}
 						for _, pr := range profs {
-							ps := map[string]interface{}{"nopt": nopt, "narg": narg, "swap": swap, "env": 0, "argsFirst": 0}
+							ps := map[string]interface{}{"nopt": nopt, "narg": narg, "swap": swap, "env": 0, "argsFirst": 0, "withSub": 0}
 							for k, v := range pr.params {
 								ps[k] = v
 							}
@@ -520,16 +554,23 @@ func init() {
 							u.Samples = 2
 							us = append(us, u)
 						}
+						if swap == 0 {
+							// the same command with a sub-command (usage line shows COMMAND [arg...])
+							pss := map[string]interface{}{"nopt": nopt, "narg": narg, "swap": swap, "env": 0, "argsFirst": 0, "withSub": 1, "profile": "raw", "K": 2, "L": 1}
+							usb := unit(cli, "H_defspec", fmt.Sprintf("H_defspec[%d opts %d args with a sub-command, raw K<=2 L<=1]", nopt, narg), pss)
+							usb.Samples = 2
+							us = append(us, usb)
+						}
 						if narg > 0 && (swap == 0 || !c.quick()) {
 							// the same with every option and argument backed by an environment variable (symbolic subset set)
 							if nopt > 0 {
 								// arguments declared before the options
-								psf := map[string]interface{}{"nopt": nopt, "narg": narg, "swap": swap, "env": 0, "argsFirst": 1, "profile": "raw", "K": 2, "L": 2}
+								psf := map[string]interface{}{"nopt": nopt, "narg": narg, "swap": swap, "env": 0, "argsFirst": 1, "withSub": 0, "profile": "raw", "K": 2, "L": 2}
 								uf := unit(cli, "H_defspec", fmt.Sprintf("H_defspec[%d opts %d args v%d arguments declared first, raw K<=2 L<=2]", nopt, narg, swap), psf)
 								uf.Samples = 2
 								us = append(us, uf)
 							}
-							ps := map[string]interface{}{"nopt": nopt, "narg": narg, "swap": swap, "env": 1, "argsFirst": 0, "profile": "raw", "K": 2, "L": 1}
+							ps := map[string]interface{}{"nopt": nopt, "narg": narg, "swap": swap, "env": 1, "argsFirst": 0, "withSub": 0, "profile": "raw", "K": 2, "L": 1}
 							u := unit(cli, "H_defspec", fmt.Sprintf("H_defspec[%d opts %d args v%d env subsets, raw K<=2 L<=1]", nopt, narg, swap), ps)
 							u.Samples = 2
 							us = append(us, u)
@@ -564,7 +605,7 @@ func init() {
 			var us []*interp.Unit
 			for _, g := range cfgs {
 				u := unit(cli, "H_helptext", fmt.Sprintf("H_helptext[%d args %d opts %d kids depth %d first %d]", g[0], g[1], g[2], g[3], g[4]),
-					map[string]interface{}{"nargs": g[0], "nopts": g[1], "nkids": g[2], "depth": g[3], "firstopt": g[4], "wordLen": pick(c, 1, 2)})
+					map[string]interface{}{"nargs": g[0], "nopts": g[1], "nkids": g[2], "depth": g[3], "firstopt": g[4], "wordLen": 1})
 				u.Samples = 4
 				us = append(us, u)
 			}
@@ -572,7 +613,7 @@ func init() {
 		},
 		Bounds: func(c *checkCtx) map[string]interface{} {
 			return map[string]interface{}{"declarations": "0-2 arguments, 0-3 options (6 name-list shapes: short only, long only, short+long, two shorts, two longs, long+two shorts; bool/int/ints defaults), 0-3 sub-commands (1-3 aliases, Hidden symbolic), LongDesc presence, PrintHelp/PrintLongHelp, root or sub-command",
-				"descriptions": fmt.Sprintf("symbolic lower-case words of <=%d bytes, optionally two lines; env lists of 0-2 names; HideValue", pick(c, 1, 2))}
+				"descriptions": "symbolic lower-case words (1 byte), optionally two lines; env lists of 0-3 names incl. irregular separators; HideValue; defaults with `%` and blank-only defaults; empty short description"}
 		},
 		Assumptions: append([]string{"compared after whitespace normalisation (runs of blanks collapsed, lines trimmed, empty lines dropped): text/tabwriter is a pass-through in the engine and the real one in the native twin; byte rendering by fmt and tabwriter is trusted"}, commonAssumptions...),
 		Outside:     []string{"descriptions containing blanks other than the modelled line break", "column alignment"},
@@ -584,9 +625,9 @@ func init() {
 				pat            string
 				optLen, argLen int
 			}
-			pcs := []pc{{"oo", 3, 1}, {"aa", 1, 2}, {"oa", 2, 2}, {"ao", 2, 2}}
+			pcs := []pc{{"oo", 3, 1}, {"aa", 1, 2}, {"oa", 2, 2}, {"ao", 2, 2}, {"ov", 2, 1}, {"vo", 2, 1}}
 			if !c.quick() {
-				pcs = []pc{{"oo", 4, 1}, {"aa", 1, 3}, {"oa", 3, 2}, {"ao", 3, 2}, {"ooo", 2, 1}, {"aaa", 1, 1}, {"oao", 2, 1}}
+				pcs = []pc{{"oo", 4, 1}, {"aa", 1, 3}, {"oa", 3, 2}, {"ao", 3, 2}, {"ooo", 2, 1}, {"aaa", 1, 1}, {"oao", 2, 1}, {"ov", 3, 1}, {"vo", 3, 1}, {"ovo", 2, 1}}
 			}
 			var us []*interp.Unit
 			for _, x := range pcs {
@@ -616,12 +657,18 @@ func init() {
 							continue // no IsBoolFlag method: nothing to answer
 						}
 						u := unit(cli, "H_custom", fmt.Sprintf("H_custom[combo %03b %s IsBoolFlag()=%v Lp<=%d env<=%d]", combo, map[int]string{1: "opt", 0: "arg"}[opt], fa == 1, lp, el),
-							map[string]interface{}{"combo": combo, "opt": opt, "Lp": lp, "envLen": el, "flagAnswer": fa, "withArg": 0})
+							map[string]interface{}{"combo": combo, "opt": opt, "Lp": lp, "envLen": el, "flagAnswer": fa, "withArg": 0, "group": 0})
 						u.Samples = 3
 						us = append(us, u)
+						if opt == 1 && fa == 1 {
+							ug := unit(cli, "H_custom", fmt.Sprintf("H_custom[combo %03b opt through an option group Lp<=%d env<=%d]", combo, lp, el),
+								map[string]interface{}{"combo": combo, "opt": opt, "Lp": lp, "envLen": el, "flagAnswer": fa, "withArg": 0, "group": 1})
+							ug.Samples = 2
+							us = append(us, ug)
+						}
 						if opt == 1 && fa == 1 && (combo == 0 || combo == 2) {
 							u2 := unit(cli, "H_custom", fmt.Sprintf("H_custom[combo %03b opt + positional Lp<=%d]", combo, lp),
-								map[string]interface{}{"combo": combo, "opt": opt, "Lp": lp, "envLen": 1, "flagAnswer": fa, "withArg": 1})
+								map[string]interface{}{"combo": combo, "opt": opt, "Lp": lp, "envLen": 1, "flagAnswer": fa, "withArg": 1, "group": 0})
 							u2.Samples = 2
 							us = append(us, u2)
 						}
@@ -656,6 +703,9 @@ func init() {
 				us = append(us, unit(cli, "H_indep", fmt.Sprintf("H_indep[determinism spec %d core template K<=3]", a), pt))
 				us = append(us, unit(cli, "H_indep", fmt.Sprintf("H_indep[interfere spec %d/%d raw K<=1 L<=2]", a, (a+1)%n), ps("interfere", 1, 2)))
 				us = append(us, unit(cli, "H_indep", fmt.Sprintf("H_indep[envtime spec %d raw K<=1 L<=2]", a), ps("envtime", 1, 2)))
+				if a == 0 {
+					us = append(us, unit(cli, "H_indep", "H_indep[option and argument bound to one variable, every map order]", ps("sharedvar", 0, 1)))
+				}
 			}
 			for _, u := range us {
 				u.Samples = 2
